@@ -2,9 +2,11 @@
 
 pub(crate) mod client;
 pub(crate) mod driver;
+pub(crate) mod mutate;
 pub(crate) mod net;
 pub(crate) mod props;
 pub(crate) mod report;
+pub(crate) mod scen;
 pub(crate) mod txlib;
 pub(crate) mod world;
 
